@@ -12,6 +12,7 @@ import BumpVerif.Gen.FnIter
 import BumpVerif.Gen.FnRawVec
 import BumpVerif.Gen.FnRewind
 import BumpVerif.Gen.FnGlue
+import BumpVerif.Gen.FnChunks
 import BumpVerif.Gen.FnVec
 import BumpVerif.Gen.FnVecDrain
 import BumpVerif.Gen.FnVecIntoIter
@@ -117,6 +118,9 @@ def main : IO Unit := do
   out := add (firstDiff "alloc_layout_slow" ((sts.flatMap fun s => lays.map fun l => (s, l)).map fun (s, (sz, al)) =>
     (s!"{tag s} size={sz} align={al}", showSO (Gen.Fn.alloc_layout_slow E s.a.M ⟨sz, al⟩ s), showSO (Rs.alloc_layout_slow E s.a.M ⟨sz, al⟩ s)))) out
   out := add (firstDiff "reset" (sts.map fun s => (tag s, showSO (Gen.Fn.reset E s.a.M s), showSO (reset s)))) out
+  out := add (firstDiff "dealloc_chunk_list" (sts.map fun s => (tag s, showSO (Gen.Fn.dealloc_chunk_list E s.a.M s.a.chunks s), showSO (Rs.dealloc_chunk_list s.a.chunks s)))) out
+  out := add (firstDiff "Drop for Bump" (sts.map fun s => (tag s, (match Gen.Fn.bump_drop E s.a.M s with | (s', .ok _) => s!"ok evs={repr s'.evs}" | _ => "not-ok"), s!"ok evs={repr (dropArena s).evs}"))) out
+  out := add (firstDiff "allocated_bytes_including_metadata" (sts.map fun s => (tag s, showSO (Gen.Fn.allocated_bytes_including_metadata E s.a.M s), showSO (s, Outcome.ok (allocatedBytesIncludingMetadata s.a E))))) out
   -- dealloc / shrink / grow of the newest block of the newest chunk
   let blocks := sts.filterMap fun s => match s.a.chunks with
     | c :: _ => if c.ptr < c.footer then some (s, c.ptr, c.footer - c.ptr) else none
